@@ -423,6 +423,7 @@ int main(int argc, char **argv)
     {
         // large sizes
         std::vector<u64> big = th ? std::vector<u64>{2048, 8192, 16384, 65536, 262144, 1048576} : std::vector<u64>{8192, 16384, 65536};
+        if (args.num("light", 0)) big = {8192}; // sanitizer builds
         int mode = which == "C03" ? M_NTT : which == "C04" ? M_INTT : M_EXT;
         for (u64 n : big)
             for (u64 ncols : {1ULL, 3ULL})
